@@ -21,6 +21,9 @@ CHECKS = {
  "C10": ("exploration", "bounded exhaustive operation-sequence enumeration with state-key pruning on the real TimerRegistry/TimerStore over a real dkv.DB vs a set of pending timers",
          "every sequence up to depth 5-7 over SetTimer / AdvanceWatermark / checkpoint+restore with 1-2 upstreams and per-key-group cache capacities of 0,1,2,3,unlimited timers; each advance must deliver exactly the pending timers at or below the minimum upstream watermark, once, in order; final drain",
          "three subject keys in two key groups, four timestamps; non-decreasing upstream watermarks; large memtable (the database is C07/C08's subject)", "DESIGN.md §5 C10"),
+ "C12": ("model_checking", "explicit-state search (choice-sequence DFS with canonical state-key pruning) over the real snapshots.Store, every transition compared with a reference model",
+         "all states of the real Store reachable within 14-24 events over CreateCheckpoint / CreateSavepoint / operator and source-runner acknowledgements (right, late, early ids; foreign senders; duplicates) / restart, for assemblies (1,1), (2,1), (2,2); in-memory state, CurrentCheckpoint, decoded snapshot files, savepoint files and retained notifications equal the model after every event",
+         "publication goroutines awaited after every event (their interleavings and crash points are C13's subject); in-memory storage location", "DESIGN.md §5 C12"),
  "C17": ("exploration", "bounded exhaustive input/history enumeration on the real SST and WAL code vs reference lists",
          "every run of 0..50 entries from a 56-key universe (binary, empty, prefix-related keys; tombstone masks exhaustive up to 8 entries), whole and split at every target size, every lookup key / prefix, descriptor JSON round trip; every WAL history over put/delete/cut/truncate/rotate+save up to depth 6-7 with every legal start marker",
          "bounded sizes and alphabet; MemoryFilesystem stands for all file systems", "DESIGN.md §5 C17"),
